@@ -120,14 +120,13 @@ pub fn check_response(req: &SmbReq, a: &[u8]) -> Check {
     }
 }
 
-pub fn check(c: &Case, st: &mut Stats) -> Check {
-    Sut::reset();
-    st.eval();
-    let sut = Sut::new(&c.scn.cfg);
-    let mut bytes = c.req.bytes();
-    let smb1 = c.req.is_smb1();
+/// the message bytes with the fault applied; None = the fault leaves the positive domain
+/// unchanged (command equal to the original one)
+fn faulted(req: &SmbReq, fault: &Fault) -> Option<(Vec<u8>, bool)> {
+    let mut bytes = req.bytes();
+    let smb1 = req.is_smb1();
     let mut negative = false;
-    match &c.fault {
+    match fault {
         Fault::None => {}
         Fault::ReplyFlag => {
             if smb1 {
@@ -141,12 +140,12 @@ pub fn check(c: &Case, st: &mut Stats) -> Check {
             if smb1 {
                 let cb = *cmd as u8;
                 if cb == 0x72 || cb == 0x73 {
-                    return Ok(());
+                    return None;
                 }
                 bytes[4 + 4] = cb;
             } else {
                 if *cmd == 0 || *cmd == 1 {
-                    return Ok(());
+                    return None;
                 }
                 bytes[4 + 12] = *cmd as u8;
                 bytes[4 + 13] = (*cmd >> 8) as u8;
@@ -154,25 +153,30 @@ pub fn check(c: &Case, st: &mut Stats) -> Check {
             negative = true;
         }
     }
-    st.frames(2);
-    let app = app_exchange(&sut, &c.scn.net, true, c.sport, c.dport, &bytes)?;
-    let kind = match &c.req {
+    Some((bytes, negative))
+}
+
+fn kind_of(req: &SmbReq) -> &'static str {
+    match req {
         SmbReq::Smb1Negotiate { .. } => "smb1-negotiate",
         SmbReq::Smb1SessionSetup { .. } => "smb1-session-setup",
         SmbReq::Smb2Negotiate { .. } => "smb2-negotiate",
         SmbReq::Smb2SessionSetup { .. } => "smb2-session-setup",
-    };
-    st.class(&format!("{}:{}", kind, match &c.fault { Fault::None => "request", Fault::ReplyFlag => "fault:reply-flag", Fault::OtherCommand(_) => "fault:other-command" }));
-    st.nontrivial_hash(fnv(&bytes));
+    }
+}
+
+/// verdict on the application reply `app` (None = not answered) to one message
+fn judge(req: &SmbReq, fault: &Fault, bytes: &[u8], negative: bool, app: &Option<Vec<u8>>, st: &mut Stats) -> Check {
+    let kind = kind_of(req);
     let show = || hex(&bytes[..bytes.len().min(160)]);
     if negative {
         return match app {
             None => Ok(()),
-            Some(a) => vfail!("{} with {:?} answered: {} -> {}", kind, c.fault, show(), hex(&a[..a.len().min(120)])),
+            Some(a) => vfail!("{} with {:?} answered: {} -> {}", kind, fault, show(), hex(&a[..a.len().min(120)])),
         };
     }
     // SMB2 negotiate without any supported dialect: no reply
-    if let SmbReq::Smb2Negotiate { dialects, .. } = &c.req {
+    if let SmbReq::Smb2Negotiate { dialects, .. } = req {
         if !dialects.iter().any(|d| SMB2_SUPPORTED.contains(d)) {
             st.class("smb2-negotiate:no-supported-dialect");
             return match app {
@@ -181,17 +185,17 @@ pub fn check(c: &Case, st: &mut Stats) -> Check {
             };
         }
     }
-    let dup = c.req.has_dup_dialects();
+    let dup = req.has_dup_dialects();
     if dup {
         st.class("smb2-negotiate:duplicate-dialects");
     }
     let res: Check = (|| {
-        let a = match &app {
+        let a = match app {
             Some(a) => a,
             None => vfail!("{} request not answered: {}", kind, show()),
         };
         st.sample(|| json!({"request": kind, "bytes": hex(&bytes[..bytes.len().min(100)]), "response_head": hex(&a[..a.len().min(80)])}));
-        check_response(&c.req, a).map_err(|f| Failure::new(format!("{} [{} {} -> {}]", f.msg, kind, show(), hex(&a[..a.len().min(200)]))))
+        check_response(req, a).map_err(|f| Failure::new(format!("{} [{} {} -> {}]", f.msg, kind, show(), hex(&a[..a.len().min(200)]))))
     })();
     match res {
         Err(f) if dup => Err(Failure::keyed("smb2-duplicate-dialects", f.msg)),
@@ -199,18 +203,113 @@ pub fn check(c: &Case, st: &mut Stats) -> Check {
     }
 }
 
+pub fn check(c: &Case, st: &mut Stats) -> Check {
+    Sut::reset();
+    st.eval();
+    let sut = Sut::new(&c.scn.cfg);
+    let (bytes, negative) = match faulted(&c.req, &c.fault) {
+        Some(x) => x,
+        None => return Ok(()),
+    };
+    st.frames(2);
+    let app = app_exchange(&sut, &c.scn.net, true, c.sport, c.dport, &bytes)?;
+    st.class(&format!("{}:{}", kind_of(&c.req), match &c.fault { Fault::None => "request", Fault::ReplyFlag => "fault:reply-flag", Fault::OtherCommand(_) => "fault:other-command" }));
+    st.nontrivial_hash(fnv(&bytes));
+    judge(&c.req, &c.fault, &bytes, negative, &app, st)
+}
+
+// ---------------------------------------------------------------------------------------
+// conversations: the usual client sends Negotiate and then Session Setup on the same connection
+
+#[derive(Clone, Debug, Serialize, Deserialize, PartialEq)]
+pub struct Conv {
+    pub scn: Scenario,
+    pub sport: u16,
+    pub dport: u16,
+    pub msgs: Vec<(SmbReq, Fault)>,
+}
+
+pub fn conv_strategy() -> impl Strategy<Value = Conv> {
+    let fault = || prop_oneof![
+        6 => Just(Fault::None),
+        1 => Just(Fault::ReplyFlag),
+        2 => prop_oneof![2 => 0u16..=0x12, 2 => 0x70u16..0x76, 1 => any::<u16>()].prop_map(Fault::OtherCommand),
+    ];
+    // one SMB version per connection: the flow's leading bytes select the SMB1 or the SMB2
+    // responder for the whole connection (C10), so a message of the other version is not this
+    // responder's to answer
+    (scenario_quiet(Fam::Any), port(), port(), proptest::collection::vec((smb_req(), fault()), 2..=6)).prop_map(|(scn, sport, dport, mut msgs)| {
+        let v1 = msgs[0].0.is_smb1();
+        msgs.retain(|(r, _)| r.is_smb1() == v1);
+        msgs.truncate(4);
+        Conv { scn, sport, dport, msgs }
+    })
+}
+
+pub fn conv_check(c: &Conv, st: &mut Stats) -> Check {
+    use crate::vf::session::*;
+    Sut::reset();
+    st.eval();
+    let sut = Sut::new(&c.scn.cfg);
+    let flow = Flow { net: c.scn.net.clone(), sport: c.sport, dport: c.dport };
+    let mut stream = Vec::new();
+    let mut lens = Vec::new();
+    let mut parts = Vec::new();
+    for (req, fault) in &c.msgs {
+        let (bytes, negative) = match faulted(req, fault) {
+            Some(x) => x,
+            None => return Ok(()),
+        };
+        lens.push(bytes.len());
+        stream.extend_from_slice(&bytes);
+        parts.push((bytes, negative));
+    }
+    if c.msgs.len() < 2 || c.msgs.iter().any(|(r, _)| r.is_smb1() != c.msgs[0].0.is_smb1()) {
+        st.class("trivial:conversation-of-one-message-or-mixed-versions");
+        return Ok(());
+    }
+    st.frames(1 + lens.len() as u64);
+    let replies = deliver(&sut, &flow, 2020, &stream, &lens).map_err(Failure::new)?;
+    st.nontrivial_hash(fnv(&stream) ^ 0xc0);
+    st.class(&format!("conversation:{}-messages", c.msgs.len()));
+    for (i, rp) in replies.iter().enumerate() {
+        let app: Option<Vec<u8>> = match rp {
+            SegReply::Data(p) => Some(p.clone()),
+            SegReply::Ack | SegReply::Silence => None,
+            SegReply::Other(o) => {
+                if o.starts_with("panic") {
+                    return Err(Failure::keyed("panic", o.clone()));
+                }
+                vfail!("message #{} of the conversation got {:?}", i, o)
+            }
+        };
+        let (req, fault) = &c.msgs[i];
+        if i > 0 {
+            st.class(&format!("conversation:later:{}:{}", kind_of(req), match fault { Fault::None => "request", Fault::ReplyFlag => "fault:reply-flag", Fault::OtherCommand(_) => "fault:other-command" }));
+        }
+        judge(req, fault, &parts[i].0, parts[i].1, &app, st).map_err(|f| Failure { key: f.key, msg: format!("message #{} of {} on one connection: {}", i, c.msgs.len(), f.msg) })?;
+    }
+    Ok(())
+}
+
 impl Prop for C17 {
     fn id(&self) -> &'static str {
         "C17"
     }
     fn rule(&self) -> &'static str {
-        "cases = NetBIOS session messages over a handshaken TCP flow (one segment, both IP versions, random ports) carrying SMB1 Negotiate (1..8 dialects from known / unknown / random names, any order, duplicates, consistent ByteCount), SMB1 Session Setup (12-word layout, security blob 1..299 bytes, optional trailing strings), SMB2 Negotiate (1..8 dialect revisions from the supported set and random values, duplicates tracked separately, optional negotiate-context bytes), SMB2 Session Setup (blob 1..299 bytes); every correlation field random (PIDHigh/TID/PIDLow/UID/MID; MessageId/AsyncId/SessionId), request flags random with the reply bit clear. Negatives: reply flag set; SMB1 command over all byte values, SMB2 commands 0..18 and random. Oracle: own decoders: NetBIOS length = rest, magic, command and correlation fields echoed, reply flag set, WordCount/StructureSize, DialectIndex < number offered / DialectRevision among those offered (no reply if none supported), ByteCount / SecurityBlobLength / SecurityBufferOffset+Length consistent with the bytes present. Non-trivial = every case; distinct by message hash."
+        "cases = NetBIOS session messages over a handshaken TCP flow (one segment, both IP versions, random ports) carrying SMB1 Negotiate (1..8 dialects from known / unknown / random names, any order, duplicates, consistent ByteCount), SMB1 Session Setup (12-word layout, security blob 1..299 bytes, optional trailing strings), SMB2 Negotiate (1..8 dialect revisions from the supported set and random values, duplicates tracked separately, optional negotiate-context bytes), SMB2 Session Setup (blob 1..299 bytes); every correlation field random (PIDHigh/TID/PIDLow/UID/MID; MessageId/AsyncId/SessionId), request flags random with the reply bit clear. Negatives: reply flag set; SMB1 command over all byte values, SMB2 commands 0..18 and random. Conversations: 2..4 such messages (each request or negative, one SMB version per connection since the leading bytes select the SMB1 or SMB2 responder for the whole flow; e.g. Negotiate then Session Setup as real clients do) in successive segments of ONE connection, every message judged exactly like a single one. Security blobs as clients send them (raw NTLMSSP types 1/2/3, SPNEGO negTokenInit/negTokenResp wrappers, Kerberos-looking, random). Oracle: own decoders: NetBIOS length = rest, magic, command and correlation fields echoed, reply flag set, WordCount/StructureSize, DialectIndex < number offered / DialectRevision among those offered (no reply if none supported), ByteCount / SecurityBlobLength / SecurityBufferOffset+Length consistent with the bytes present. Non-trivial = every case; distinct by message hash."
     }
     fn run(&self, ctx: &mut RunCtx) {
         let n = ctx.share(ctx.tier.n(500_000, 8_000_000));
         ctx.run_generated("smb", n, case_strategy(), check);
+        let m = ctx.share(ctx.tier.n(250_000, 4_000_000));
+        ctx.run_generated("conversation", m, conv_strategy(), conv_check);
     }
-    fn replay(&self, _stream: &str, case: &Value, st: &mut Stats) -> Check {
-        check(&serde_json::from_value(case.clone()).map_err(|e| Failure::new(format!("bad case: {}", e)))?, st)
+    fn replay(&self, stream: &str, case: &Value, st: &mut Stats) -> Check {
+        let bad = |e: serde_json::Error| Failure::new(format!("bad case: {}", e));
+        match stream {
+            "conversation" => conv_check(&serde_json::from_value(case.clone()).map_err(bad)?, st),
+            _ => check(&serde_json::from_value(case.clone()).map_err(bad)?, st),
+        }
     }
 }
